@@ -102,11 +102,6 @@ class Ctx:
                         os.remove(os.path.join(LEAN, ".lake/build/lib/lean", rel + ext))
                     except OSError:
                         pass
-            # the common driver is built separately: its failure is a driver problem, not a broken proof
-            rc, out = sh(["lake", "build", "bngdrv"], cwd=LEAN)
-            if rc != 0:
-                errs = [l for l in out.splitlines() if l.startswith("error")]
-                self.broken.append(("driver", "lake build bngdrv failed: %s" % "; ".join(errs[:3])))
             rc, out = sh(["lake", "build", "Bng.Audit"] + list(spec_modules) + list(extra_modules), cwd=LEAN)
             if rc != 0:
                 errs = [l for l in out.splitlines() if l.startswith("error")]
@@ -198,7 +193,7 @@ class Ctx:
 
     def drv(self, comp_drv, trace_path, drv_bin="bngdrv"):
         exe = os.path.join(LEAN, ".lake", "build", "bin", drv_bin)
-        if drv_bin != "bngdrv" and drv_bin not in self._built_bins:
+        if drv_bin not in self._built_bins:
             with Lock("lean"):
                 rc, out = sh(["lake", "build", drv_bin], cwd=LEAN)
             self._built_bins.add(drv_bin)
@@ -209,6 +204,62 @@ class Ctx:
         with open(trace_path) as f:
             p = subprocess.run([exe, comp_drv], stdin=f, stdout=subprocess.PIPE, stderr=subprocess.PIPE, text=True)
         return p.stdout.splitlines(), p.returncode, p.stderr
+
+
+
+def _driver_registry():
+    """component name -> (import module, Lean expression), parsed from lean/Main.lean and the Drv modules"""
+    main = open(os.path.join(LEAN, "Main.lean")).read()
+    ns2mod = {}
+    for fn in os.listdir(os.path.join(LEAN, "Bng", "Drv")):
+        if fn.endswith(".lean"):
+            m = re.search(r"^namespace Bng\.Drv\.(\w+)", open(os.path.join(LEAN, "Bng", "Drv", fn)).read(), flags=re.M)
+            if m:
+                ns2mod[m.group(1)] = "Bng.Drv." + fn[:-5]
+    reg = {}
+    for m in re.finditer(r'\("([\w-]+)",\s*([^\n]+?)\)\s*,?\s*$', main, flags=re.M):
+        name, expr = m.group(1), m.group(2).strip()
+        ns = expr.split(".")[0]
+        if ns in ns2mod:
+            reg[name] = (ns2mod[ns], expr)
+    return reg
+
+
+def ensure_driver(prop, comps):
+    """every property replays its traces with its OWN executable `drv-cNN`, which links only the driver
+    modules of that property's components: a module of another property that does not compile (or a failing
+    translator) cannot take this property's driver down.  Generated idempotently from lean/Main.lean."""
+    names = sorted({c.drv for c in comps if c.drv_bin == "bngdrv"})
+    if not names:
+        return None
+    exe = "drv-" + prop.lower()
+    root = "Drv" + prop.upper()
+    reg = _driver_registry()
+    missing = [n for n in names if n not in reg]
+    if missing:
+        return None     # fall back to the common bngdrv
+    mods = sorted({reg[n][0] for n in names})
+    src = "import Bng.Drv.Common\n" + "".join("import %s\n" % m for m in mods) + \
+          "/- GENERATED by lib/verif.py ensure_driver: the trace replayer of %s (components: %s) -/\n" % (prop, ", ".join(names)) + \
+          "open Bng.Drv\n\ndef components : List (String × Component) := [\n" + \
+          ",\n".join('  ("%s", %s)' % (n, reg[n][1]) for n in names) + "\n]\n\n" + \
+          "def main (args : List String) : IO UInt32 := do\n  match args with\n  | [name] =>\n" + \
+          "    match components.lookup name with\n    | some c => runComponent c\n" + \
+          "    | none => IO.eprintln s!\"unknown component {name}\"; return 2\n" + \
+          "  | _ => IO.eprintln \"usage: %s <component> < trace\"; return 2\n" % exe
+    with Lock("lean"):
+        path = os.path.join(LEAN, root + ".lean")
+        if not os.path.exists(path) or open(path).read() != src:
+            with open(path + ".tmp", "w") as f:
+                f.write(src)
+            os.replace(path + ".tmp", path)
+        lf = os.path.join(LEAN, "lakefile.toml")
+        txt = open(lf).read()
+        entry = '\n[[lean_exe]]\nname = "%s"\nroot = "%s"\n' % (exe, root)
+        if ('name = "%s"' % exe) not in txt:
+            with open(lf, "a") as f:
+                f.write(entry)
+    return exe
 
 
 def strip_comments(src):
@@ -541,6 +592,11 @@ def standard_check(prop, spec_module, comps, level_text, assumptions, tier, seed
         ctx.lean_check(spec_module)
         if tier == "thorough":
             ctx.leanchecker(spec_module)
+        own = ensure_driver(prop, comps)
+        if own:
+            for c in comps:
+                if c.drv_bin == "bngdrv":
+                    c.drv_bin = own
         results = [(c, run_component(ctx, c)) for c in comps]
         if post:
             post(ctx)
@@ -575,7 +631,9 @@ def replay(prop, comps, path):
             print(json.dumps(data, indent=1))
             return 0
         binp = ctx.go_build(comp.harness, comp.kind)
-        sh(["lake", "build", "bngdrv"], cwd=LEAN)
+        own = ensure_driver(prop, comps)
+        if own and comp.drv_bin == "bngdrv":
+            comp.drv_bin = own
         tp = os.path.join(ctx.scratch, "replay.trace")
         with open(tp, "w") as fout:
             subprocess.run([binp, "exec"], input="\n".join(data["ops"]) + "\n", stdout=fout, text=True)
